@@ -306,6 +306,15 @@ type dotHSubNode struct {
 func (n *dotHSubNode) ID() int64             { return n.id }
 func (n *dotHSubNode) Subgraph() graph.Graph { return n.sub }
 
+// dotHMultiSubNode is a node of a multigraph that stands for a subgraph.
+type dotHMultiSubNode struct {
+	id  int64
+	sub graph.Multigraph
+}
+
+func (n *dotHMultiSubNode) ID() int64                  { return n.id }
+func (n *dotHMultiSubNode) Subgraph() graph.Multigraph { return n.sub }
+
 // dotView is what the oracles need from a harness graph.
 type dotView interface {
 	graph.Graph
@@ -1008,7 +1017,7 @@ func runDotStructured(c *Ctx, used map[string]bool) *Violation {
 	if variant == 0 {
 		kind = t.Choose(simrt.KWorkload, 4)
 	} else {
-		kind = t.Choose(simrt.KWorkload, 2) // Subgrapher: simple graphs
+		kind = t.Choose(simrt.KWorkload, 4) // Subgrapher (simple graphs) / MultiSubgrapher (multigraphs)
 	}
 	codec := dotCodec(kind)
 	directed := kind%2 == 0
@@ -1051,6 +1060,9 @@ func runDotStructured(c *Ctx, used map[string]bool) *Violation {
 		}
 	} else {
 		what = "Subgrapher"
+		if kind >= 2 {
+			what = "MultiSubgrapher"
+		}
 		type member struct {
 			names []string
 			node  graph.Node
@@ -1065,7 +1077,10 @@ func runDotStructured(c *Ctx, used map[string]bool) *Violation {
 			sm.name = dotDrawUnique(t, used)
 			sg, _ := sm.build()
 			sg.common().name = sm.name
-			sn := &dotHSubNode{id: nextID, sub: sg}
+			var sn graph.Node = &dotHSubNode{id: nextID, sub: sg}
+			if kind >= 2 {
+				sn = &dotHMultiSubNode{id: nextID, sub: sg.(graph.Multigraph)}
+			}
 			nextID++
 			g.AddNode(sn)
 			subsN = append(subsN, member{sm.names, sn})
@@ -1110,6 +1125,12 @@ func runDotStructured(c *Ctx, used map[string]bool) *Violation {
 				gg.SetEdge(he)
 			case *dotSU:
 				gg.SetEdge(he)
+			case *dotMD:
+				he.uid = int64(1000 + i)
+				gg.SetLine(he)
+			case *dotMU:
+				he.uid = int64(1000 + i)
+				gg.SetLine(he)
 			}
 			for _, x := range verts[a].names {
 				for _, y := range verts[b].names {
